@@ -11,6 +11,8 @@ Reference predicate written from docs/select_syntax.rst with IEEE semantics (NaN
 import math
 import itertools
 
+import os
+
 import numpy as np
 from hypothesis import strategies as st
 from hypothesis.stateful import rule, initialize, precondition
@@ -409,8 +411,78 @@ class KeepMachine(TracedMachine()):
             fail('keep(%r) then keep(%r) gives %r, keep(%r) alone gives %r' % (
                 loose, tight, [g[0] for g in ra], tight, [g[0] for g in rb]), 'c05:loose_then_tight')
 
+    # ---- the object-oriented interface writes results to a fit file and post-processing reads them back: the selection
+    #      promises hold for a result that went through a file shared with earlier states of the same objects
+    @precondition(lambda self: self.info is not None and not self._dead)
+    @rule()
+    def save(self):
+        self.log('save')
+        self.guard(self._save)
+
+    def _save(self):
+        import tempfile
+        from sedfitter.fit_info import FitInfoFile
+        from vlib import fitinfo_gen as fg
+        if getattr(self, 'tmp', None) is None:
+            self.tmp = tempfile.mkdtemp(prefix='c05-')
+            self.meta = fg.Meta(os.path.join(self.tmp, 'models'), [1., 2., 3.], [3., 3., 3.],
+                                {'wav': [0.1, 0.55, 10.], 'chi': [3., 1., 0.1]})
+            self.fout, self.saved, self.nfile = None, [], 0
+        if self.fout is None:
+            self.nfile += 1
+            self.path = os.path.join(self.tmp, 'out%d.fitinfo' % self.nfile)
+            with must_succeed('opening a fit file for writing'):
+                self.fout = FitInfoFile(self.path, 'w')
+            self.saved = []
+        self.info.meta = self.meta
+        with must_succeed('FitInfoFile.write'):
+            self.fout.write(self.info)
+        self.saved.append((list(self.model), list(self.flags), self.n_data))
+
+    @precondition(lambda self: self.info is not None and not self._dead and getattr(self, 'fout', None) is not None)
+    @rule()
+    def reload(self):
+        self.log('reload')
+        self.guard(self._reload)
+
+    def _reload(self):
+        from sedfitter.fit_info import FitInfoFile
+        with must_succeed('closing and re-reading the fit file'):
+            self.fout.close()
+            fin = FitInfoFile(self.path, 'r')
+            recs = list(fin)
+            fin.close()
+        self.fout = None
+        if len(recs) != len(self.saved):
+            fail('%d results were written to one file, %d read back' % (len(self.saved), len(recs)), 'c05:file_record_count')
+        for i, (rec, (rows, flags, n_data)) in enumerate(zip(recs, self.saved)):
+            got_flags = [int(v) for v in rec.source.valid]
+            if got_flags != flags or int(rec.source.n_data) != n_data:
+                fail('result %d of %d read back from the file: source flags %r (n_data %d), but it was written with flags %r '
+                     '(n_data %d): per-data-point selections would keep the wrong fits' % (
+                         i + 1, len(recs), got_flags, int(rec.source.n_data), flags, n_data), 'c05:n_data_after_file')
+            if not same_rows(rows_of(rec, 'result read back'), rows):
+                fail('result %d of %d read back from the file lists %r, it was written with %r' % (
+                    i + 1, len(recs), [g[0] for g in rows_of(rec)], [g[0] for g in rows]), 'c05:rows_after_file')
+        # go on with the last record as read back
+        self.info = recs[-1]
+        self.model, self.flags, self.n_data = list(self.saved[-1][0]), list(self.saved[-1][1]), self.saved[-1][2]
+        self.n_reloads = getattr(self, 'n_reloads', 0) + 1
+
+    def cleanup(self):
+        import shutil
+        if getattr(self, 'fout', None) is not None:
+            try:
+                self.fout.close()
+            except Exception:  # noqa
+                pass
+        if getattr(self, 'tmp', None):
+            shutil.rmtree(self.tmp, ignore_errors=True)
+
     def finish(self):
         labels = {'history_keeps=%d' % min(self.n_keeps, 4)}
+        if getattr(self, 'n_reloads', 0):
+            labels.add('result_went_through_a_file')
         if getattr(self, 'n_edits', 0):
             labels.add('flags_edited_in_place')
         return labels, self.n_keeps >= 2 and self.n_removed_steps >= 1
